@@ -44,6 +44,8 @@ def validate(v, trace_file, cfg, label):
     events = vlib.read_ndjson(trace_file)
     traces = vlib.split_traces(events)
     v.add_cov(events_validated=len(events), trace_states=r["distinct"])
+    if not v.samples and events:
+        v.sample({"trace_head": [{k: e[k] for k in list(e)[:10] if k not in ("t_us", "src", "seq", "g")} for e in events[1:9]]})
     if r["ok"]:
         v.add_cov(traces_validated_against_impl=len(traces))
         return True
